@@ -64,6 +64,7 @@ def make_basis(outs, rng, kind):
         else:
             a = np.asarray(st)
             shape, cplx = a.shape, np.iscomplexobj(a)
+        cplx = cplx and kind != "real"      # "real": real-typed seeds on complex outputs (e.g. the seed of sum(Re y))
         if kind == "dyad" and len(shape) == 2:
             def vec(n):
                 v = rng.random(n) - 0.5
@@ -197,6 +198,15 @@ def _replay_entry(arg):
     return idx, kind, out
 
 
+def complex_out(entry):
+    import warnings
+    with warnings.catch_warnings():
+        warnings.simplefilter("ignore")
+        m, ins, outs = entry.make()
+        m.response()
+    return any(np.iscomplexobj(o.state.data if sps.issparse(o.state) else o.state) for o in outs)
+
+
 def signature(entry_name, kind):
     base = entry_name.split("/")[0]
     return "C04/%s/%s" % (base, kind)
@@ -212,7 +222,7 @@ def run(chk, replay=None):
         if res is not None:
             chk.violation(signature(replay["module"], res[1]), res[2], replay)
         return
-    chk.extra["rule"] = ("a case is (module configuration from modtable.py, seed representation dense/dyadic, history emitted by "
+    chk.extra["rule"] = ("a case is (module configuration from modtable.py, seed representation dense/dyadic/real-typed on complex outputs, history emitted by "
                          "TLC from ModuleProto.tla); non-trivial = the history contains at least one Sens after a SetSeed")
     chk.assumptions += ["the module is deterministic for fixed inputs (reference contributions g1, g2 are measured on a second instance)",
                         "comparison tolerance per module: 1e-9 (direct), 1e-6..1e-8 where an iterative/LAPACK solve is involved"]
@@ -247,7 +257,7 @@ def run(chk, replay=None):
         return False
     jobs = []
     for idx, e in enumerate(ents):
-        kinds = ["dense"] + (["dyad"] if "matrix_out" in e.tags else [])
+        kinds = ["dense"] + (["dyad"] if "matrix_out" in e.tags else []) + (["real"] if complex_out(e) else [])
         for kind in kinds:
             for part in par.chunks(behs, 4):
                 jobs.append((idx, kind, part, chk.seed))
